@@ -713,12 +713,11 @@ Inductive readersplit_case :=
 (* NewCBEDecoder().Decode(scriptReader(sc)) with MaxDocumentSizeBytes = maxdoc
    delivered [evs] and returned an error iff [err] *)
 | CbeStream (maxdoc : N) (sc : script) (evs : list rtok) (err : bool)
-(* same through NewCEDecoder() (bufio in front); [None] = no event at all and an error *)
+(* same through NewCEDecoder() (bufio.Reader and Peek(1) in front) *)
 | CeStream (maxdoc : N) (sc : script) (evs : list rtok) (err : bool)
-(* NewCTEDecoder().Decode(scriptReader(sc)): the text handed to the parser is
-   not observable; what is observable is agreement with DecodeDocument(d') for
-   the d' the model computes, so the case records whether that agreement held *)
-| CteCopy (sc : script) (expect : bytes).
+(* NewCTEDecoder().Decode(scriptReader(sc)): [got] = the bytes the scripted
+   reader had handed out when Decode returned (what io.Copy collected) *)
+| CteCopy (sc : script) (got : bytes).
 
 Definition st_of (err : bool) : status := if err then SErr else SOk.
 
@@ -734,6 +733,6 @@ Definition readersplit_case_ok (c : readersplit_case) : bool :=
           | _ => false
           end
       end
-  | CteCopy sc expect =>
-      match copy_all (Direct sc) with Some d => bytes_eqb d expect | None => false end
+  | CteCopy sc got =>
+      match copy_all (Direct sc) with Some d => bytes_eqb d got | None => false end
   end.
